@@ -184,3 +184,22 @@ Proof.
     rewrite on_shutdown_hopen. reflexivity.
   - split_all; try reflexivity. rewrite on_shutdown_hopen. reflexivity.
 Qed.
+
+Definition same_tasks (s s' : st) : Prop :=
+  ps s' = ps s /\ tasks s' = tasks s /\ lastt s' = lastt s /\ ntask s' = ntask s.
+
+Lemma drain_tasks ev : forall s s' dr ks, drain s ev = (s', dr, ks) -> same_tasks s s'.
+Proof.
+  induction ev as [|e t IH]; intros s s' dr ks; cbn.
+  - intros H; injection H as <- _ _. repeat split.
+  - destruct e.
+    + destruct (hval s p).
+      * destruct (drain s t) as [[a b] c0] eqn:E. intros H; injection H as <- _ _. eapply IH; eauto.
+      * intros H. apply IH in H. exact H.
+    + intros H. apply IH in H. exact H.
+    + destruct (drain (set_hsink (set_hopen s p false) p None) t) as [[a b] c0] eqn:E. intros H; injection H as <- _ _.
+      apply IH in E. exact E.
+    + intros H. eapply IH; eauto.
+    + intros H. eapply IH; eauto.
+Qed.
+
